@@ -1,7 +1,6 @@
 #!/usr/bin/env python3
 """seedcheck.py <seed-id> [--tier quick] [--seeds 1,2]: applies seeded/<seed-id>/patch.diff to /repo, runs the check of the property
-named in seeded/<seed-id>/meta.json, restores /repo, and records the outcome in seeded/<seed-id>/result.json.
-Never leaves /repo modified (git checkout -- . afterwards, also on errors)."""
+named in seeded/<seed-id>/meta.json against it and records the outcome in seeded/<seed-id>/result.json."""
 import json, os, subprocess, sys, time
 ROOT = os.path.dirname(os.path.abspath(__file__))
 REPO = "/repo"
@@ -16,25 +15,36 @@ def main():
     d = os.path.join(ROOT, "seeded", sid)
     meta = json.load(open(os.path.join(d, "meta.json")))
     props = meta["property"] if isinstance(meta["property"], list) else [meta["property"]]
-    if subprocess.run(["git", "-C", REPO, "status", "--porcelain", "--untracked-files=no"], capture_output=True, text=True).stdout.strip():
-        print("refusing: /repo has uncommitted changes"); return 2
-    r = subprocess.run(["git", "-C", REPO, "apply", os.path.join(d, "patch.diff")], capture_output=True, text=True)
+    # The patch is applied in a scratch worktree and reaches the build through a Go overlay (VERIF_OVERLAY), so /repo itself
+    # is never modified (other runs may be building from it at the same time); the result is the same as applying it to /repo.
+    wt = "/tmp/seedwt-" + sid
+    subprocess.run(["git", "-C", REPO, "worktree", "remove", "--force", wt], capture_output=True)
+    r = subprocess.run(["git", "-C", REPO, "worktree", "add", "--detach", wt, "HEAD"], capture_output=True, text=True)
     if r.returncode != 0:
-        print("patch does not apply:", r.stderr); return 2
+        print("worktree:", r.stderr); return 2
     results = []
     try:
+        r = subprocess.run(["git", "-C", wt, "apply", os.path.join(d, "patch.diff")], capture_output=True, text=True)
+        if r.returncode != 0:
+            print("patch does not apply:", r.stderr); return 2
+        changed = subprocess.run(["git", "-C", wt, "status", "--porcelain"], capture_output=True, text=True).stdout.splitlines()
+        repl = {}
+        for l in changed:
+            f = l[3:].strip()
+            if f.endswith(".go"):
+                repl[os.path.join(REPO, f)] = os.path.join(wt, f)
+        ov = os.path.join(wt, "verif-overlay.json")
+        json.dump({"Replace": repl}, open(ov, "w"))
         for p in props:
             for s in seeds:
                 t0 = time.time()
-                e = dict(os.environ); e["VERIF_SEED"] = s
+                e = dict(os.environ); e["VERIF_SEED"] = s; e["VERIF_OVERLAY"] = ov
                 r = subprocess.run(["python3", os.path.join(ROOT, "vcheck.py"), "run", p, "--tier", tier], capture_output=True, text=True, env=e, cwd=ROOT)
-                lines = [l for l in r.stdout.splitlines() if l.startswith("VIOLATION") or l.startswith("--- failing") or l.startswith("replay failed")]
+                lines = [l for l in r.stdout.splitlines() if l.startswith("VIOLATION") or l.startswith("--- failing") or l.startswith("replay failed") or l.startswith("BUILD-FAILED")]
                 results.append({"property": p, "tier": tier, "seed": int(s), "exit": r.returncode, "wall_s": round(time.time() - t0, 1), "lines": [l[:400] for l in lines[:6]]})
                 print(p, "seed", s, "exit", r.returncode, "%.0fs" % (time.time() - t0), (lines[0][:200] if lines else ""))
     finally:
-        subprocess.run(["git", "-C", REPO, "checkout", "--", "."])
-        # a patch may add files
-        st = subprocess.run(["git", "-C", REPO, "apply", "-R", "--check", os.path.join(d, "patch.diff")], capture_output=True)
+        subprocess.run(["git", "-C", REPO, "worktree", "remove", "--force", wt], capture_output=True)
     caught = any(x["exit"] == 1 for x in results)
     json.dump({"caught": caught, "runs": results, "at": time.strftime("%Y-%m-%dT%H:%M:%SZ", time.gmtime())}, open(os.path.join(d, "result.json"), "w"), indent=1)
     print("CAUGHT" if caught else "MISSED")
